@@ -101,7 +101,7 @@ def rules(ck, P):
                 bool(cpar) and comp.deep_place(m["a"][0], glets).split(".")[0] == cpar[0]
         part = any(partial_guard(s_) for s_ in sts)
         ck.check(part, "R-SPARSE", g["q"] + "|partial-block", "lookup: a coordinate outside a partial block's box means 'no tile'", "lookup does not handle partial blocks", ir.loc(g))
-        zero = ir.contains(g["body"], lambda y: y.get("k") == "if" and ir.cmp_norm(y["c"]) is not None and ir.cmp_norm(y["c"])[0].endswith("range.length") and ir.cmp_norm(y["c"])[2] == "0")
+        zero = ir.contains(g["body"], lambda y: y.get("k") == "if" and ir.unparen(y["c"]).get("k") == "bin" and ir.unparen(y["c"]).get("op") == "==" and _is_range_len(ir.unparen(y["c"])["l"]) and ir.const_eval(ir.unparen(y["c"])["r"], {}) == 0)
         ck.check(zero, "R-SPARSE", g["q"] + "|empty-entry", "lookup: an index entry of length 0 means 'no tile'", "zero-length index entries are not treated as absent", ir.loc(g))
         gb = [n for n in ir.walk_nodes(s["body"]) if n.get("k") == "mcall" and n.get("name") == "get_block"]
         okm = False
@@ -113,7 +113,7 @@ def rules(ck, P):
                     if p.get("k") in ("if", "match") and not okm:
                         okm = not ir.contains(p, lambda y: y.get("k") == "call" and (y.get("q") or "").startswith(ir.PANIC_FNS))
         ck.check(okm, "R-SPARSE", s["q"] + "|missing-block", "stream: a block that is not in the index contributes no tiles", "stream fails on a block that is not in the index", ir.loc(s))
-        flt = ir.contains(s["body"], lambda y: y.get("k") == "bin" and y.get("op") == ">" and ir.place_str(y["l"]).endswith("range.length") and ir.const_eval(y["r"], {}) == 0)
+        flt = ir.contains(s["body"], lambda y: y.get("k") == "bin" and y.get("op") == ">" and _is_range_len(y["l"]) and ir.const_eval(y["r"], {}) == 0)
         ck.check(flt, "R-SPARSE", s["q"] + "|empty-entry", "stream: zero-length index entries are skipped", "stream does not skip zero-length entries", ir.loc(s))
 
     # ---------------- R-PM-DEPTH
@@ -149,14 +149,16 @@ def rules(ck, P):
         for n in ir.walk_nodes(b["body"]):
             if n.get("k") == "if":
                 c = ir.unparen(n["c"])
-                if c.get("k") == "bin" and c.get("op") == "<" and c["l"].get("k") == "bin" and c["l"].get("op") == "-" and ir.place_str(c["l"]["l"]) == "tile_id" and \
-                        ir.place_str(c["l"]["r"]).endswith("tile_id") and "run_length" in ir.place_str(c["r"]):
+                tp = [x["hid"] for p_ in b["params"] for x in ir.pat_binds(p_) if x["t"] == "u64"]
+                if c.get("k") == "bin" and c.get("op") == "<" and c["l"].get("k") == "bin" and c["l"].get("op") == "-" and ir.local_hid(c["l"]["l"]) in tp and \
+                        ir.strip(c["l"]["r"]).get("k") == "field" and ir.strip(c["l"]["r"]).get("name") == "tile_id" and \
+                        ir.contains(c["r"], lambda y: y.get("k") == "field" and y.get("name") == "run_length"):
                     run = True
         exact = ir.contains(b["body"], lambda y: y.get("k") == "match" and any("Equal" in str(a["pat"]) for a in y["arms"]))
         ck.check(leaf and run and exact, "R-PM-RUN", b["q"], "find_tile: exact id, or the preceding entry if it is a leaf pointer (run_length == 0) or tile_id - entry.tile_id < run_length",
                  "find_tile lacks leaf fall-through (%s), run-length containment (%s) or exact match (%s)" % (leaf, run, exact), ir.loc(b))
     if pl:
-        okb = ir.contains(pl["body"], lambda y: y.get("k") == "if" and ir.cmp_norm(y["c"]) == ("entry.run_length", ">", "0"))
+        okb = ir.contains(pl["body"], lambda y: y.get("k") == "if" and ir.cmp_norm(y["c"]) is not None and ir.cmp_norm(y["c"])[0].endswith(".run_length") and ir.cmp_norm(y["c"])[1:] == (">", "0"))
         ck.check(okb, "R-PM-RUN", pl["q"], "lookup: run_length > 0 is a tile, otherwise the entry is followed as a leaf directory", "lookup does not distinguish tiles from leaf pointers by run_length", ir.loc(pl))
 
     # ---------------- R-CACHE-KEY: a cached value is a function of its key
@@ -230,6 +232,8 @@ def _mb_nonempty(ck, P, b):
             wrappers[n["pat"]["hid"]] = errs
     # variables holding a value that exists at level {z}
     col_wit, row_wit, col_wit_opt = set(), set(), set()
+    zl = [x["name"] for lp_ in ir.walk_nodes(b["body"]) if lp_.get("k") == "for" for x in ir.pat_binds(lp_["pat"])]
+    zpat = "zoom_level = {%s}" % (zl[0] if zl else "?")
     n_checked = 0
     bad = []
     for n in ir.walk_nodes(b["body"]):
@@ -255,14 +259,14 @@ def _mb_nonempty(ck, P, b):
         fl = c03.fmt_literal(c["a"][1])
         where = expand(fl[0]) if fl else (ir.const_eval_str(c["a"][1]) or "")
         via_err = c.get("k") == "call" and wrappers.get(ir.local_hid(c["f"]), False)
-        level = "zoom_level = {z}" in where
+        level = zpat in where
         if not via_err:
             if level and "tile_column" in agg and not ("tile_column" in where or "tile_row" in where):
                 col_wit_opt.update(tgt)
             continue
         n_checked += 1
         conj = [x.strip() for x in re.split(r"\s+AND\s+(?![^()]*\))", where) if x.strip()]
-        rest = [x for x in conj if x != "zoom_level = {z}"]
+        rest = [x for x in conj if x != zpat]
         ok = False
         if not conj:
             ok = True     # whole table: an MBTiles file without any tile holds nothing to return
@@ -281,6 +285,11 @@ def _mb_nonempty(ck, P, b):
     ck.check(not bad and n_checked >= 4, "R-SQL-NULL", b["q"] + "|non-empty-where", "every query whose NULL result is an error has a WHERE set containing a row already known to exist at that level (%d queries)" % n_checked,
              "a NULL aggregate is turned into an error although its WHERE set can be empty in a valid file (sparse columns / rows): %s" % bad[:2], ir.loc(b))
 
+
+
+def _is_range_len(e):
+    e = ir.strip(e)
+    return e is not None and e.get("k") == "field" and e.get("name") == "length" and "ByteRange" in ((ir.strip(e["e"]).get("t") or "") + (ir.strip(e["e"]).get("ta") or ""))
 
 
 # accessors that are the identity of the object they are called on (reason reviewed):
